@@ -68,7 +68,10 @@ def main():
                 res["existing_tests_tail"] = out[-300:]
             sh(["cp", os.path.join(sd, "demo.rs"), demo_dst])
             rc, out = sh(["cargo", "test", "--offline", "-p", crate, "--test", "seed_demo", "-j", "8"] + feat, cwd=SCRATCH)
-            res["demo_fails_with_patch"] = (rc != 0 and "test result: FAILED" in out)
+            # a failing assertion, or the test process aborting (UB precondition check, non-unwinding panic);
+            # never a compile error
+            res["demo_fails_with_patch"] = (rc != 0 and "could not compile" not in out and
+                                            ("test result: FAILED" in out or "process abort signal" in out or "(signal:" in out))
             res["confirm_s"] = round(time.time() - t0)
             os.remove(demo_dst)
         for p in props:
